@@ -106,6 +106,8 @@ def key_test(t: T) -> Optional[Tuple[str, bool]]:
         nm = coll.name if coll.op in ("attr", "param", "free", "name") and isinstance(coll.name, str) else None
         if coll.op == "item" and any(x.op == "mcall" and x.name == "_get_state_names" for x in coll.walk()):
             return ("node" if coll.name == 0 else "edge"), True
+        if coll.op == "mcall" and coll.name == "_edge_state_names":
+            return "edge", True
         if nm in EDGE_KEY_SETS:
             return "edge", True
         if nm in NODE_KEY_SETS:
@@ -124,6 +126,8 @@ def key_test(t: T) -> Optional[Tuple[str, bool]]:
             # `comp_states, edge_states = self._get_state_names()` -> item 0 / item 1
             if coll.op == "item" and any(x.op == "mcall" and x.name == "_get_state_names" for x in coll.walk()):
                 cls = "node" if coll.name == 0 else "edge"
+            elif any(x.op == "mcall" and x.name == "_edge_state_names" for x in coll.walk()):
+                cls = "edge"
             elif names & EDGE_KEY_SETS:
                 cls = "edge"
             elif names & NODE_KEY_SETS:
